@@ -182,8 +182,8 @@ def DType.kind : DType → Kind
 def DType.ofKind : Kind → DType
   | .float => .float | .int => .int 8 IntFmt.native | .bool => .bool
 
-/-- `_pickle_digits` entry: 'double', 'single' or a number (opaque) -/
-inductive Digits where | double | single | num
+/-- `_pickle_digits` entry: 'double', 'single' or a number (an opaque tag: the harness sends the value in thousandths) -/
+inductive Digits where | double | single | num (tag : Nat)
   deriving DecidableEq, Repr
 
 inductive Mask where
@@ -393,6 +393,13 @@ def getstateDeriv (P : Params) (pd : Digits × Digits) (antimask : Option (List 
       | v => v
     (getstate1 P { d with digits := some (d.digits.getD (pd.2, pd.2)), vals := vals,
                           mask := .scalar false }).1
+
+/-- `set_pickle_digits` (pickler.py:134-200) after validation of the two pairs: the object gets the pair, every
+    derivative it carries AT THAT MOMENT gets the second entry twice (a derivative is pickled as an object of its
+    own and reads entry 0).  References are not modelled (opaque to the structural model). -/
+def setDigits (p : Digits × Digits) (q : QObj) : QObj :=
+  ⟨{ q.self with digits := some p },
+   q.derivs.map fun kd => (kd.1, { kd.2 with digits := some (p.2, p.2) })⟩
 
 def addCache (o : Obj) (keys : List String) : Obj :=
   { o with cache := o.cache ++ keys.filter (fun k => !o.cache.contains k) }
